@@ -296,6 +296,14 @@ morpheme comes from a split/merge; distinct by line".into();
                 s
             }
             else if k == CASES_PER_WORLD - 1 { run.bump("text:long"); let ln = 40 + rng.below(120); gen_text(&mut rng, w, ln) }
+            else if k == CASES_PER_WORLD - 2 && idx / CASES_PER_WORLD % 4 == 0 {
+                // beyond the byte limit (49149) but few code points: more than 65535 bytes of 3- and 4-byte characters no plugin
+                // edits. The limit is a BYTE limit because morphemes carry u16 byte offsets: such a text must be refused - an
+                // analyser that accepts it reports offsets modulo 65536
+                run.bump("text:over-byte-limit-few-codepoints");
+                let head = if rng.chance(1, 2) { "あ".repeat(21846 + rng.below(40)) } else { "𠮷".repeat(16390 + rng.below(40)) };
+                format!("{}{}", head, gen_text(&mut rng, w, 6))
+            }
             else { gen_text(&mut rng, w, 14) };
         if k < DIRECTED.len() { run.bump("text:directed"); }
         let mode = mode_of(rng.below(3));
